@@ -43,6 +43,7 @@ class TraceRun:
         self.w = None
         self.leak_reported = False
         self.c04_reported = False
+        self.pack_info, self.pack_out, self.extra_finals = {}, {}, {}
         self.marks = []            # (site, #events) at every step
 
     # -- probes
@@ -90,6 +91,31 @@ class TraceRun:
         self.user_ie = uie
         self.ie_cur = iec
         self.w.rec.user_nocheck = uie
+
+    def cb_packinfo(self, n, packer, bits):
+        self.pack_info[n] = {"bitlen": packer.bitlen(), "nbits": len(bits),
+                             "secret_bits": sum(1 for b in bits if self.w.lc_of(b) is not None)}
+
+    def cb_packout(self, n, out):
+        flat = []
+
+        def walk(x):
+            if isinstance(x, (list, tuple)):
+                for y in x:
+                    walk(y)
+            else:
+                flat.append(x)
+        walk(out)
+        vals = []
+        for j, x in enumerate(flat):
+            lc = self.w.lc_of(x)
+            if lc is not None:
+                vals.append(lc.value)
+                self.extra_finals["_po%d[%d]" % (n, j)] = (lc.value, W.canon_lc(lc.lc.lc, self.w.rec.p))
+                self.gen.origin["_po%d[%d]" % (n, j)] = {"op": "unpack", "t": "I"}
+            else:
+                vals.append(x)
+        self.pack_out[n] = vals
 
     def cb_caught(self, site, e):
         cls = type(e).__name__
@@ -236,6 +262,9 @@ class TraceRun:
             "__inputs__": self.inputs, "__step__": self.cb_step, "__enter__": self.cb_enter,
             "__leave__": self.cb_leave, "__caught__": self.cb_caught, "__set_ie__": self.cb_set_ie,
             "__cv__": self.cb_cv, "__CAUGHT__": (Exception, W.InjectedInterrupt),
+            "__packinfo__": self.cb_packinfo, "__packout__": self.cb_packout,
+            "PackBool": w.pack.PackBool, "PackIntMod": w.pack.PackIntMod, "PackList": w.pack.PackList,
+            "PackRepeat": w.pack.PackRepeat,
             "__name__": "__plan__",
         }
         fname = "<plan>"
@@ -282,6 +311,7 @@ class TraceRun:
                 if (rec.ev(a.lc) * rec.ev(b.lc) - rec.ev(c.lc)) % rec.p != 0 and rec.con_ok(i):
                     self.violations.append(vio("C13", "operand_mutated", {"where": "constraint"},
                                                "constraint %d changed after emission" % i))
+        self.finals.update(self.extra_finals)
         # collect final top-level variables
         for nm, v in self.globals.items():
             if nm[:2] in ("vI", "vB", "vF") and nm[2:].isdigit():
